@@ -144,3 +144,13 @@ def naming_scenarios(with_clone=True):
                     depth={"quick": 2, "thorough": 3}, policy=policy,
                     note="naming scope %s under the %s policy" % (kind, policy))
     return list(_NAMING.values())
+
+S8 = Scenario(
+    "S8-data-and-top", seeds.seed_children,
+    ["element.name=", "element.del_name", "element.setitem", "element.delitem", "element.pop",
+     "netlist.top_instance=", "netlist.top_instance=None", "definition.create_child",
+     "definition.create_port", "definition.create_cable"],
+    limits={"positions": (None,), "names": (None, "a"), "keys": (".NAME", "k"), "counts": (None, 1),
+            "elem_kinds": "NLDX"},
+    depth={"quick": 2, "thorough": 3},
+    note="element data edits, compound constructors, top instance")
